@@ -6,7 +6,7 @@
    differential rendering in tools/checks/c19.py (partial). *)
 From Coq Require Import String.
 From Verif Require Import JinjaScan JinjaScanThm JinjaLinePrefixThm JinjaRules Gen_JinjaRules JinjaRulesThm JinjaPins JinjaPinsThm.
-From Verif Require Import JinjaVendorPins Gen_JinjaVendor JinjaVendorThm JinjaRx Gen_JinjaRx JinjaRxThm JinjaPipe JinjaPipeThm JinjaMarkerThm.
+From Verif Require Import JinjaVendorPins Gen_JinjaVendor JinjaVendorThm JinjaRx Gen_JinjaRx JinjaRxThm JinjaPipe JinjaPipeThm JinjaMarkerThm JinjaMini JinjaMiniThm.
 Open Scope N_scope.
 
 (* (1) Conservativity of the lexer modification.  For EVERY source that contains no occurrence of an opener followed by
@@ -64,21 +64,10 @@ Theorem C19_marker_prefix_every_start_string :
 Proof. split; [exact marker_aware_sound_lemma | exact marker_aware_single_lemma]. Qed.
 Print Assumptions C19_marker_prefix_every_start_string.
 
-(* the LEGACY marker code (`endswith('*')`, `[:-3]`) is wrong outside two-character delimiters: finding F-JINJA-MARKER-DELIM.
-   D1: with start string "\VAR{" the prefix of "  \VAR{*" is not "  ";  D2: the PLAIN opener "<*" is taken for a marker.
-   (lead: when the patch lands these two move to History/C19_history.v) *)
-Theorem C19_legacy_marker_prefix_refuted : exists D w : str, D <> [] /\ marker_m false [D] (w ++ D ++ [42]) <> Some w.
-Proof. exact legacy_prefix_refuted. Qed.
-Print Assumptions C19_legacy_marker_prefix_refuted.
-
-Theorem C19_legacy_marker_plain_opener_refuted : exists D : str, marker_m false [D] D <> None /\ marker_m true [D] D = None.
-Proof. exact legacy_plain_opener_refuted. Qed.
-Print Assumptions C19_legacy_marker_plain_opener_refuted.
-
-(* tie of the legacy constant: while the code is not delimiter-aware its slice bound is the 3 of the legacy model *)
-Theorem C19_marker_mode_tie : autoindent_delimiter_aware = false -> autoindent_drop = 3%nat.
-Proof. intros H. first [reflexivity | discriminate H]. Qed.
-Print Assumptions C19_marker_mode_tie.
+(* the code in /repo IS the delimiter-aware one (a6cc424): a regression to the legacy test flips this obligation.  (The refutations
+   of the legacy `endswith('*')` / `[:-3]` code -- finding F-JINJA-MARKER-DELIM, fixed -- live in History/C19_history.v.) *)
+Example C19_marker_code_is_delimiter_aware : autoindent_delimiter_aware = true.
+Proof. reflexivity. Qed.
 
 (* (3) lineprefix (translated do_lineprefix): split at "\n", the output consists of exactly the lines str.splitlines()
    finds in the input, each non-empty one prefixed, empty ones unchanged.  Consequences spelled out below:
@@ -235,9 +224,10 @@ Print Assumptions C19_extensions_pinned_and_stateless.
      Gen/JinjaVendorPins.v): any edit breaks this obligation and must be classified {documented-delta, neutral} there.  The
      upstream commit of /repo/subtree.json is not available offline, so the digests are NOT compared with upstream 2.11; the
      installed 3.1.x is a structural reference only (version caveat): 272 functions are shape-identical to it.
-   - the documented-delta list is not "found by reading": it is re-derived on every run from the tree's own evidence (marker
-     comments / docstrings / identifiers, package-rename strings written by embed_jinja.py, commits of the directory's git log)
-     and must equal the committed list. *)
+   - the documented-delta list is SELF-EVIDENCED: it is re-derived on every run from markers in the very tree it describes (marker
+     comments / docstrings / identifiers, package-rename strings, commits of the directory's git log -- for lexer:Lexer.__init__ the
+     evidence is this effort's own fix commit) and must equal the committed list.  That detects an UNDOCUMENTED new delta site
+     relative to the committed baseline; it is no evidence that the baseline's modification set is complete (trusted base). *)
 Theorem C19_vendored_copy_pinned : pairs_eqb vendored_digests expected_vendored = true.
 Proof. exact vendored_all_pinned_lemma. Qed.
 Print Assumptions C19_vendored_copy_pinned.
@@ -245,11 +235,6 @@ Print Assumptions C19_vendored_copy_pinned.
 Theorem C19_documented_deltas_are_the_self_documented_sites : map fst documented_sites = documented_delta_keys.
 Proof. exact documented_sites_lemma. Qed.
 Print Assumptions C19_documented_deltas_are_the_self_documented_sites.
-
-Theorem C19_documented_deltas_differ_from_reference :
-  forallb (fun k => match assoc k vendored_digests with Some d => negb (eq_stock31 (k, d)) | None => false end) documented_delta_keys = true.
-Proof. exact documented_deltas_differ_from_reference_lemma. Qed.
-Print Assumptions C19_documented_deltas_differ_from_reference.
 
 Example C19_vendored_reference_counts :
   (length (filter eq_stock31 vendored_digests) >= 270)%nat /\ length vendored_digests = 774%nat.
@@ -269,7 +254,7 @@ Print Assumptions C19_scanner_conservative_every_rule_set.
 (* the regenerated rule lists of all 8 option combinations carry marker alternatives exactly on raw/variable/block (and line
    prefixes), never on comments; and the theorem is about them in particular *)
 Example C19_regenerated_rule_sets :
-  length root_rules_x = 8%nat /\
+  length root_rules_x = 9%nat /\
   forallb (fun rs => forallb (fun nr => Bool.eqb (match marker_of (snd nr) with Some _ => true | None => false end)
                                                  (negb (str_eqb (fst nr) n_comment))) rs) root_rules_x = true.
 Proof. vm_compute. split; reflexivity. Qed.
@@ -281,15 +266,17 @@ Proof. vm_compute. split; reflexivity. Qed.
 
 (* (10b) WITHOUT the marker: bundled rules + bundled parser + rendering = upstream rules + upstream parser + rendering, for every
    rule list, every behaviour of the unmodified lexer states / parse_tuple / parse_statement (assumed only to consume tokens
-   forwards and to use the recursive subparse on their own input), every evaluation, text conversion, statement semantics and
+   forwards and to use the recursive subparse on their own input, given that the subparse handed in consumes forwards too;
+   discharged for the concrete instance Gen/JinjaMini.v: C19_pipeline_hypotheses_hold_for_the_mini_instance), every evaluation, text conversion, statement semantics and
    context.  Second hypothesis: no begin token of the upstream token stream ends in `*` (true unless a delimiter itself does). *)
 Theorem C19_pipeline_conservative :
   forall (E St C V : Type)
          (pt : list xtok -> option (E * list xtok))
          (ps : (list str -> list xtok -> option (list (pnode E St) * list xtok)) -> list xtok -> option (list St * list xtok)),
     (forall toks e rest, pt toks = Some (e, rest) -> tsuffix rest toks) ->
-    (forall cb toks ss rest, ps cb toks = Some (ss, rest) -> tsuffix rest toks) ->
-    (forall cb1 cb2 toks, (forall ends t, tsuffix t toks -> cb1 ends t = cb2 ends t) -> ps cb1 toks = ps cb2 toks) ->
+    (forall cb toks ss rest, (forall ends t ns r, cb ends t = Some (ns, r) -> tsuffix r t) -> ps cb toks = Some (ss, rest) -> tsuffix rest toks) ->
+    (forall cb1 cb2 toks, (forall ends t ns r, cb2 ends t = Some (ns, r) -> tsuffix r t) ->
+                          (forall ends t, tsuffix t toks -> cb1 ends t = cb2 ends t) -> ps cb1 toks = ps cb2 toks) ->
     forall (ev : E -> C -> option V) (text : V -> str)
            (rs : (list (pnode E St) -> C -> option (str * C)) -> St -> C -> option (str * C))
            (mv mb : str -> option str)
@@ -307,14 +294,15 @@ Print Assumptions C19_pipeline_conservative.
 (* (10b') with the DELIMITER-AWARE marker decision the second hypothesis is no longer assumed: it follows from a decidable
    condition on the rule list (`covers`: for every start string handed to marker_start there is a marker alternative
    `[..]*<start>\*` spelled with literal characters) and from the pushed lexer states yielding no root begin tokens.
-   For the legacy decision it is FALSE (C19_legacy_marker_plain_opener_refuted: delimiters / prefixes ending in `*`). *)
+   For the legacy decision it was FALSE (History/C19_history.v: delimiters / prefixes ending in `*`). *)
 Theorem C19_pipeline_conservative_delimiter_aware :
   forall (E St C V : Type)
          (pt : list xtok -> option (E * list xtok))
          (ps : (list str -> list xtok -> option (list (pnode E St) * list xtok)) -> list xtok -> option (list St * list xtok)),
     (forall toks e rest, pt toks = Some (e, rest) -> tsuffix rest toks) ->
-    (forall cb toks ss rest, ps cb toks = Some (ss, rest) -> tsuffix rest toks) ->
-    (forall cb1 cb2 toks, (forall ends t, tsuffix t toks -> cb1 ends t = cb2 ends t) -> ps cb1 toks = ps cb2 toks) ->
+    (forall cb toks ss rest, (forall ends t ns r, cb ends t = Some (ns, r) -> tsuffix r t) -> ps cb toks = Some (ss, rest) -> tsuffix rest toks) ->
+    (forall cb1 cb2 toks, (forall ends t ns r, cb2 ends t = Some (ns, r) -> tsuffix r t) ->
+                          (forall ends t, tsuffix t toks -> cb1 ends t = cb2 ends t) -> ps cb1 toks = ps cb2 toks) ->
     forall (ev : E -> C -> option V) (text : V -> str)
            (rs : (list (pnode E St) -> C -> option (str * C)) -> St -> C -> option (str * C))
            (sv sb : list str)
@@ -330,6 +318,31 @@ Proof.
   intros toks Hs. exact (aware_no_marker_tokens_lemma py_uni inner Hin rules (demarkx rules) sv sb src toks Hcov Hfree Hs).
 Qed.
 Print Assumptions C19_pipeline_conservative_delimiter_aware.
+
+(* ... and this is the LIVE statement: `code_marker` is what Parser.subparse in /repo does now *)
+Theorem C19_pipeline_conservative_live :
+  forall (E St C V : Type)
+         (pt : list xtok -> option (E * list xtok))
+         (ps : (list str -> list xtok -> option (list (pnode E St) * list xtok)) -> list xtok -> option (list St * list xtok)),
+    (forall toks e rest, pt toks = Some (e, rest) -> tsuffix rest toks) ->
+    (forall cb toks ss rest, (forall ends t ns r, cb ends t = Some (ns, r) -> tsuffix r t) -> ps cb toks = Some (ss, rest) -> tsuffix rest toks) ->
+    (forall cb1 cb2 toks, (forall ends t ns r, cb2 ends t = Some (ns, r) -> tsuffix r t) ->
+                          (forall ends t, tsuffix t toks -> cb1 ends t = cb2 ends t) -> ps cb1 toks = ps cb2 toks) ->
+    forall (ev : E -> C -> option V) (text : V -> str)
+           (rs : (list (pnode E St) -> C -> option (str * C)) -> St -> C -> option (str * C))
+           (sv sb : list str)
+           (rules : xrules) (inner : str -> option N -> str -> option (list xtok * nat)) (fuel : nat) (src : str) (c : C),
+      (forall st, In st (sv ++ sb) -> st <> [] -> covers rules st = true) ->
+      (forall n p rest toks k, inner n p rest = Some (toks, k) -> forallb (fun t => negb (root_begin (fst t))) toks = true) ->
+      marker_free py_uni rules None src = true ->
+      pipeline E St C V (code_marker sv) (code_marker sb) pt ps ev text rs py_uni rules inner fuel src c =
+      pipeline E St C V never never pt ps ev text rs py_uni (demarkx rules) inner fuel src c.
+Proof.
+  intros E St C V pt ps H1 H2 H3 ev text rs sv sb rules inner fuel src c Hcov Hin Hfree.
+  change (code_marker sv) with (marker_m true sv). change (code_marker sb) with (marker_m true sb).
+  exact (C19_pipeline_conservative_delimiter_aware E St C V pt ps H1 H2 H3 ev text rs sv sb rules inner fuel src c Hcov Hin Hfree).
+Qed.
+Print Assumptions C19_pipeline_conservative_live.
 
 (* the regenerated rule lists cover their block / variable start strings (default "{%" "{{", ASP "<%" "${").  NOT covered: a
    line-statement prefix ("%%": its marker alternative carries `^` anchors, `covers` is false) -- for the two line-prefix
@@ -399,3 +412,22 @@ Theorem C19_autoindent_block_scope_refuted :
     option_map fst (render_list unit N N N ev text rs cb (map PStmt [5] ++ [PPrint (NPlain tt)]) 0).
 Proof. exact autoindent_block_scope_refuted. Qed.
 Print Assumptions C19_autoindent_block_scope_refuted.
+
+
+(* (10e) the pipeline model is not an arbitrary hand function: Gen/JinjaMini.v instantiates every parameter concretely (primaries,
+   if/else, set, for; int/str/list/undefined values), is extracted, and is run by the check against the bundled engine for all
+   regenerated option combinations; the three hypotheses on parse_tuple / parse_statement hold for it, and it computes. *)
+Theorem C19_pipeline_hypotheses_hold_for_the_mini_instance :
+  (forall toks e rest, mpt toks = Some (e, rest) -> tsuffix rest toks) /\
+  (forall cb toks ss rest, (forall ends t ns r, cb ends t = Some (ns, r) -> tsuffix r t) -> mps cb toks = Some (ss, rest) -> tsuffix rest toks) /\
+  (forall cb1 cb2 toks, (forall ends t ns r, cb2 ends t = Some (ns, r) -> tsuffix r t) ->
+                        (forall ends t, tsuffix t toks -> cb1 ends t = cb2 ends t) -> mps cb1 toks = mps cb2 toks).
+Proof. split; [exact mpt_fwd|split; [exact mps_fwd|exact mps_local]]. Qed.
+Print Assumptions C19_pipeline_hypotheses_hold_for_the_mini_instance.
+
+Example C19_pipeline_model_computes :
+  mini_bundled 0 [[123; 123]] [[123; 37]] ex_tags 50 [97; 10; 32; 32; 123; 123; 42; 32; 120; 32; 125; 125; 124] [([120], VStr [108; 49; 10; 108; 50])]
+  = Some [97; 10; 32; 32; 108; 49; 10; 32; 32; 108; 50; 124] /\
+  mini_upstream 0 ex_tags 50 [97; 10; 32; 32; 123; 123; 32; 120; 32; 125; 125; 124] [([120], VStr [108; 49; 10; 108; 50])]
+  = Some [97; 10; 32; 32; 108; 49; 10; 108; 50; 124].
+Proof. exact mini_pipeline_marker_example. Qed.
